@@ -12,9 +12,32 @@ Proof. exact view_sound. Qed.
 Print Assumptions C02_view_only_validated_unexpired.
 
 Theorem C02_view_exact :
-  forall ops ph id, validated_live ops ph id -> exists r, In (id, r) (get_regs (run ops) ph).
+  forall ops ph id n,
+    key_state ops ph id = Some (n, true) -> exists r, In (id, r) (get_regs (run ops) ph) /\ r_name r = n.
 Proof. exact view_complete. Qed.
 Print Assumptions C02_view_exact.
+
+Theorem C02_registry_refines_key_automaton :
+  forall ops ph id, find_key (run ops) ph id = key_state ops ph id.
+Proof. exact find_key_run. Qed.
+Print Assumptions C02_registry_refines_key_automaton.
+
+Theorem C02_live_needs_validate_after_last_expiry :
+  forall ops ph id, validated_live ops ph id -> validated_since ops ph id.
+Proof. exact live_needs_validate. Qed.
+Print Assumptions C02_live_needs_validate_after_last_expiry.
+
+Theorem C02_expiry_forgets :
+  forall ops ph id, key_state (ops ++ [Expire ph id]) ph id = None.
+Proof. exact expire_kills. Qed.
+Print Assumptions C02_expiry_forgets.
+
+Theorem C02_other_keys_irrelevant :
+  forall ops ph id op,
+    (forall r, op <> Track ph id r) -> (forall r, op <> Validate ph id r) -> op <> Expire ph id ->
+    key_state (ops ++ [op]) ph id = key_state ops ph id.
+Proof. exact other_phantom_irrelevant. Qed.
+Print Assumptions C02_other_keys_irrelevant.
 
 Theorem C02_identifiers_unique_per_phantom :
   forall ops ph, NoDup (ids (get_regs (run ops) ph)).
@@ -53,11 +76,6 @@ Print Assumptions C02_found_implies_registered_obfs4.
 
 (* ---- the negative forms: a stream that carries no identifier validated and unexpired on this phantom
         (replayed on another phantom, aimed at an unvalidated or expired registration) is never accepted *)
-Theorem C02_validated_live_decidable :
-  forall ops ph id, validated_live ops ph id <-> vlive_b ops ph id = true.
-Proof. exact vlive_b_spec. Qed.
-Print Assumptions C02_validated_live_decidable.
-
 Theorem C02_not_registered_never_found_min :
   forall ops ph data,
     ~ validated_live ops ph (take min_tag_len data) ->
